@@ -86,21 +86,7 @@ func init() {
 				} else if r.Intn(6) == 0 {
 					// a sample the exporter REFUSES (negative / NaN counter increment, also through the sampling rate), with
 					// tags of its own: nothing of it may show in the label set of any later sample
-					l = genWellFormedLine(r, []string{"a.b", "a.b", "a.c", "b.b", "a"}, 0.9)
-					for _, v := range []string{"1", "2", "0.5", "100", "3", "250", "7"} {
-						l = strings.Replace(l, ":"+v+"|c", ":"+pick(r, []string{"-1", "NaN", "-0.5", "-inf"})+"|c", 1)
-					}
-					if !strings.Contains(l, "|c") {
-						i := strings.IndexAny(l, ":")
-						tagsOf := ""
-						if k := strings.Index(l, "|#"); k >= 0 {
-							tagsOf = l[k:]
-						}
-						if i > 0 {
-							l = l[:i] + ":" + pick(r, []string{"-1", "NaN", "-2.5", "1|c|@-1"}) + "|c" + tagsOf
-							l = strings.Replace(l, "|c|@-1|c", "|c|@-1", 1)
-						}
-					}
+					l = genRefusedLine(r, []string{"a.b", "a.b", "a.c", "b.b", "a"})
 					refused = true
 				} else {
 					l = genWellFormedLine(r, []string{"a.b", "a.b", "a.c", "b.b", "a"}, 0.7)
